@@ -96,6 +96,65 @@ def failure_injection(tier, seed):
     return run
 
 
+def inserted_functions(tier, seed):
+    """C05 after apply() with functions inserted through register_insert_function: the stub (and its temporary return proxy), the body
+    that replaces it -- or does not, when the body patch yields no code -- and the tables must leave a closed, serialisable IR"""
+    def run():
+        import logging
+        from bounded import scen, validators as VAL
+        from gtirb_rewriting import Patch, RewritingContext, patch_constraints
+        logging.getLogger("gtirb_rewriting").setLevel(logging.CRITICAL)
+        br = BResult()
+        bodies = {"one-block": "nop\nret", "branch+label": "cmpq $0, %rdi\nje .Lz\nnop\n.Lz:\nret", "call": "call g\nret", "no-ret": "nop", "jmp-out": "jmp g",
+                  "empty-string": "", "none": None}
+        # (bodies that assemble to no bytes at all -- a label alone, a comment alone -- make apply() stop with an AssertionError / IndexError before it returns: outside the property)
+        br.bound = ("module shapes of bounded/scen.py (kinds plain/call, with and without function info) x 1 or 2 functions inserted with register_insert_function x 7 bodies "
+                    "(among them the empty string, None: bodies that yield no code) x optionally an ordinary edit in the same apply()")
+        br.clauses = ["C05/inserted-functions/apply-succeeds", "C05/cfg-endpoints-in-module", "C05/symbol-referents-in-module", "C05/aux-data-nodes-in-module",
+                      "C05/inserted-functions/serialisable-and-round-trips", "C05/inserted-functions/symbol-designates-a-block-of-the-module"]
+        distinct = set()
+
+        def mk(body):
+            @patch_constraints()
+            def f(ctx):
+                return body
+            return Patch.from_function(f)
+        for kind, funcs, names, with_edit in itertools.product(("plain", "call"), (False, True),
+                                                              [(n,) for n in bodies] + [("empty-string", "one-block"), ("call", "none"), ("none", "empty-string")], (False, True)):
+            ir, m, bi, blocks, fl = scen.build(scen.Shape(kind, funcs))
+            rc = RewritingContext(m, fl)
+            syms = [rc.register_insert_function("newfn%d" % i, mk(bodies[b])) for i, b in enumerate(names)]
+            if with_edit:
+                rc.insert_at(blocks[1], 0, scen.mkpatch("nop"))
+            br.cases += 1
+            distinct.add((kind, funcs, names, with_edit))
+            desc = {"shape": "kind=%s funcs=%s" % (kind, funcs), "inserted function bodies": [repr(bodies[b]) for b in names], "ordinary edit too": with_edit}
+            try:
+                rc.apply()
+            except Exception as ex:      # noqa
+                br.failures.append({"clause": "C05/inserted-functions/apply-succeeds", "witness": desc, "detail": "%s: %s" % (type(ex).__name__, str(ex)[:100])})
+                continue
+            for clause, detail in VAL.closure_problems(ir, m):
+                br.failures.append({"clause": clause if clause in br.clauses else "C05/aux-data-nodes-in-module", "witness": desc, "detail": detail})
+            for s_ in syms:
+                if not isinstance(s_.referent, gtirb.CodeBlock) or s_.referent.module is not m:
+                    br.failures.append({"clause": "C05/inserted-functions/symbol-designates-a-block-of-the-module", "witness": desc, "detail": "%s -> %r" % (s_.name, s_.referent)})
+            try:
+                buf = io.BytesIO()
+                ir.save_protobuf_file(buf)
+                buf.seek(0)
+                ir2 = gtirb.IR.load_protobuf_file(buf)
+                if VAL.V_canon(ir) != VAL.V_canon(ir2):
+                    br.failures.append({"clause": "C05/inserted-functions/serialisable-and-round-trips", "witness": desc, "detail": "canonical dumps differ after save/load"})
+            except Exception as ex:       # noqa
+                br.failures.append({"clause": "C05/inserted-functions/serialisable-and-round-trips", "witness": desc, "detail": "%s: %s" % (type(ex).__name__, str(ex)[:100])})
+            if len(br.samples) < 2:
+                br.samples.append(desc)
+        br.nontrivial = len(distinct)
+        return br
+    return run
+
+
 def mixed_code_data(tier, seed):
     """C05 on text sections that MIX code and data blocks: code patches (straight-line, ending in a branched-to label, ending in a jump) and
     data patches inserted at every offset -- the end included -- of a data block that lies between / before / after code blocks, and
@@ -198,6 +257,7 @@ def jobs(tier="quick", seed=0):
     yield Job("C05/mixed-code-data-bounded", mixed_code_data(tier, seed), kind="B", func="gtirb_rewriting.rewriting:RewritingContext.apply (code and data blocks mixed)")
     yield from kernels.jobs_for("C05", tier, seed)
     yield apply_bounded.job("C05", tier, seed)
+    yield Job("C05/inserted-functions-bounded", inserted_functions(tier, seed), kind="B", func="gtirb_rewriting.rewriting:RewritingContext.register_insert_function / _insert_function_stub / _apply_function_insertion")
     yield Job("C05/failure-injection-bounded", failure_injection(tier, seed), kind="B", func="gtirb_rewriting.rewriting:RewritingContext.apply (failure path)")
     # the contract of make_return_cache ("the caller's CFG object gets the final edges even when the body raises") is discharged here too
     from . import c20
